@@ -119,7 +119,7 @@ def diag_problems(d, e, r):
         out.append(("diag/line-range", "reported line %d is outside the script (%d lines)" % (d.line, nlines)))
     if "\nt.sd:" in (d.msg or ""):
         out.append(("diag/two-headers", "more than one located header line"))
-    bad = judge.internal_identifier(d.msg)
+    bad = judge.internal_identifier(d.msg, r.text)
     if bad:
         out.append(("diag/internal-identifier", "message exposes an internal identifier %r: %r" % (bad, d.msg[:200])))
     in_slot = e.kind.startswith("Slot:")
